@@ -4,6 +4,7 @@ import (
 	"encoding/json"
 	"fmt"
 	"math/rand"
+	"sort"
 	"strings"
 	"time"
 
@@ -16,7 +17,7 @@ import (
 // C11 — rebalance converges to the latest assignment, once, without stopping the client.
 
 func c11Spec(rng *rand.Rand, i int) (*SessSpec, string) {
-	placements := []string{"under-flood", "during-BRS-put", "rm-waiting", "single", "during-close-put", "during-close-get", "during-delay", "while-reopening", "right-after", "repeat", "oscillation", "api-burst", "three-sources", "late-waiter", "slow-notifier"}
+	placements := []string{"under-flood", "during-BRS-put", "rm-waiting", "single", "during-close-put", "during-close-get", "during-delay", "while-reopening", "right-after", "repeat", "oscillation", "api-burst", "three-sources", "late-waiter", "slow-notifier", "during-ARE"}
 	pl := placements[i%len(placements)]
 	sp := &SessSpec{NumVB: 4 + rng.Intn(5), Nodes: 1, AckSeed: rng.Int63(), Backend: []string{"mem", "cb", "file"}[rng.Intn(3)], Backlog: map[int][][]ItemSpec{}, Auto: rng.Intn(2) == 0, IntervalMs: 4}
 	sp.Membership = []string{"dynamic", "kubernetesHa", "kubernetesHa"}[rng.Intn(3)]
@@ -118,6 +119,10 @@ func c11Spec(rng *rand.Rand, i int) (*SessSpec, string) {
 		cur = [2]int{-1, -1}
 	case "api-burst":
 		sp.Steps = append(sp.Steps, get(false), Step{Op: "sleep", Ms: d / 4}, put(false), Step{Op: "sleep", Ms: d / 4}, put(false))
+	case "during-ARE":
+		// a further notification arrives while the application's AfterRebalanceEnd handler of the previous cycle is still
+		// running: the callbacks of the next cycle must not start inside it
+		sp.Steps = append(sp.Steps, Step{Op: "holdeh", Sel: "ARE"}, put(false), Step{Op: "waitheld", Sel: "ARE"}, put(true), Step{Op: "sleep", Ms: 60}, Step{Op: "releaseeh"}, Step{Op: "waitcycles", N: 2, Ms: 5000})
 	case "slow-notifier":
 		// the notifying goroutine is held up right after it scheduled the reopen (in the log line that follows), so with a zero
 		// delay the timer goroutine runs the reopen concurrently with the rest of Rebalance()
@@ -227,6 +232,22 @@ func OracleRebalance(tr *Trace) ([]Finding, int, bool) {
 			if closedFrom != 0 && r.T > ready {
 				fs = append(fs, Finding{"C11", "deliver-while-closed", "C11/deliver-while-closed", fmt.Sprintf("vb %d seq %d delivered at tick %d although the stream was stopped at tick %d and not yet restarted", r.VB, r.Seq, r.T, closedFrom)})
 				closedFrom = 0
+			}
+		}
+	}
+	// (2b) no lifecycle callback starts while another one is still running
+	{
+		open := ""
+		var openT int64
+		for _, r := range tr.Log {
+			if strings.HasPrefix(r.K, "eh.") && !strings.HasPrefix(r.K, "eh.held.") {
+				if open != "" {
+					fs = append(fs, Finding{"C11", "grammar", "C11/callback-inside-callback", fmt.Sprintf("callback %s started (tick %d) while %s (entered at tick %d) had not returned: %s", r.K[3:], r.T, open, openT, trunc(g, 200))})
+					break
+				}
+				open, openT = r.K[3:], r.T
+			} else if strings.HasPrefix(r.K, "ehret.") && r.K[6:] == open {
+				open = ""
 			}
 		}
 	}
@@ -438,24 +459,30 @@ func OracleRebalance(tr *Trace) ([]Finding, int, bool) {
 			}
 		}
 		if sp.Backend == "file" {
-			// whole-state back end: the file holds exactly the dump of the last COMPLETED save
-			var lastN uint64
+			// whole-state back end: every COMPLETED save rewrites the file from its dump. A checkpoint once stored stays
+			// stored: the dump of a later save carries it along (also for a vBucket the member does not own at that time), so
+			// the model is cumulative - a save that drops an entry loses a stored checkpoint.
 			done := map[uint64]bool{}
 			for _, r := range tr.Log {
 				if r.K == "md.save.ret" && r.S == "" && r.T < c.BSStart {
 					done[r.A] = true
 				}
 			}
+			var order []uint64
 			for n := range done {
-				if n > lastN {
-					lastN = n
-				}
+				order = append(order, n)
 			}
-			if lastN > 0 {
+			sort.Slice(order, func(a, b int) bool { return order[a] < order[b] })
+			if len(order) > 0 {
 				store = map[int]tuple{}
-				for _, r := range tr.Log {
-					if r.K == "md.state" && r.A == lastN {
-						store[r.VB] = tuple{r.D, r.Seq, r.B, r.C}
+				for vb, ps := range sp.PreStore {
+					store[vb] = tuple{ps[0], ps[1], ps[2], ps[3]}
+				}
+				for _, n := range order {
+					for _, r := range tr.Log {
+						if r.K == "md.state" && r.A == n {
+							store[r.VB] = tuple{r.D, r.Seq, r.B, r.C}
+						}
 					}
 				}
 			}
